@@ -2,8 +2,10 @@
 
 mod bridge;
 mod c03;
+mod c19;
 mod engine;
 mod refmap;
+mod refmvn;
 mod rng;
 mod simio;
 
@@ -57,6 +59,7 @@ fn drive<E: Engine>(e: &E, a: &Args, digest_only: bool) -> i32 {
 fn dispatch(a: &Args, digest_only: bool) -> i32 {
     match a.id.as_str() {
         "C03" => drive(&c03::C03, a, digest_only),
+        "C19" => drive(&c19::C19, a, digest_only),
         other => {
             eprintln!("harness error: no engine for {other}");
             2
